@@ -102,7 +102,9 @@ theorem refSpecs_lines_G : ∀ (refs : List Reference) (i : Nat), RefsGood i ref
       NoNl.append (NoNl.append noNl_of_plain_digits (noNl_lit _ (by decide))) hnr
     have hheadLines : blockLines "REFERENCE".toList (refHeadText i r)
         = GbLayout.refHeadLines i (toRRef r) (refLayout i r) := by
+      have hnumL : GbLayout.refNumber i (toRRef r) = Str.ofNat (i + 1) := by simp [GbLayout.refNumber, toRRef]
       unfold GbLayout.refHeadLines
+      rw [hnumL]
       by_cases hrne : r.range = []
       · rw [if_pos hrne] at hfit
         have hfit : (refHeadText i r).length ≤ 68 := by simpa using hfit
@@ -113,8 +115,9 @@ theorem refSpecs_lines_G : ∀ (refs : List Reference) (i : Nat), RefsGood i ref
       · rw [if_neg hrne] at hfit
         rw [if_neg (by simp [toRRef, hrne])]
         have hhead : GbLayout.refHead i (toRRef r) = refHeadText i r := by
-          unfold GbLayout.refHead toRRef refHeadText
-          simp only [hrne, if_false, ofNat_eq_itoa]
+          unfold GbLayout.refHead refHeadText
+          rw [hnumL]
+          simp only [toRRef, hrne, if_false, ofNat_eq_itoa]
           rw [e2, List.append_assoc]
         have hgood : Good (refHeadText i r) := by
           refine ⟨hplain, hnonl, ?_, by simpa using hfit⟩
